@@ -174,7 +174,7 @@ def plan(tier, seed):
     chunks = [('odd', [])]
     st_chunks, cov = fscommon.state_chunks(tier, seed, extra_roots=fscommon.SEED_STATES)
     for c in st_chunks:
-        chunks.append(('std', c))
+        chunks.append(('std' if tier == 'quick' else 'std-thorough', c))
     cs_chunks, cov2 = fscommon.state_chunks(tier, seed, quick=(2, 2, 1), thorough=(2, 3, 8), names=('a', 'A', 'b'))
     for c in cs_chunks:
         chunks.append(('case', c))
@@ -223,8 +223,8 @@ def run_chunk(chunk):
         return res
     sc = fsx.Scratch()
     try:
-        if kind == 'std':
-            pats = fspat.pattern_set('quick')
+        if kind in ('std', 'std-thorough'):
+            pats = fspat.pattern_set('quick' if kind == 'std' else 'thorough')
             for d in descs:
                 check_state(d, sc, pats, FLAGSETS, res)
         else:
